@@ -56,7 +56,11 @@ def seed_from_env():
 _built = False
 
 
-def build_harness():
+HARNESS_OK = True
+HARNESS_BUILD_ERROR = ""
+
+
+def build_harness(protocol_only_ok=False):
     """Rebuild the harness against /repo's working tree with --cfg harper_verif."""
     global _built
     if _built:
@@ -74,6 +78,19 @@ def build_harness():
                            stderr=subprocess.STDOUT, text=True)
     if p.returncode != 0:
         tail = "\n".join(p.stdout.splitlines()[-40:])
+        # The harness binds to harper-ls internals; a reshaped internal interface stops it from compiling.
+        # The real language-server binary may still build: checks with a protocol-level stage go on with that alone.
+        if protocol_only_ok:
+            with open(lock, "w") as lf:
+                fcntl.flock(lf, fcntl.LOCK_EX)
+                q = subprocess.run(["cargo", "build", "--release", "--offline", "--quiet", "--bin", "harper-ls-real"],
+                                   cwd=HARNESS, env=env, stdout=subprocess.PIPE, stderr=subprocess.STDOUT, text=True)
+            if q.returncode == 0:
+                global HARNESS_OK, HARNESS_BUILD_ERROR
+                HARNESS_OK, HARNESS_BUILD_ERROR = False, tail
+                log("[build] the harness does not compile against this tree; harper-ls-real does (protocol-level stages only)")
+                _built = True
+                return None
         raise ToolError("harness build failed:\n" + tail)
     log(f"[build] harness built in {time.time()-t0:.1f}s")
     _built = True
